@@ -18,9 +18,9 @@ import (
 // A point is identified by the ghost attached to its X coordinate.
 
 type mPoint struct {
-	base   []byte
-	f1, f2 []byte
-	nf     int
+	base       []byte
+	f1, f2, f3 []byte
+	nf         int
 }
 
 var (
@@ -47,10 +47,12 @@ func encodePoint(p *mPoint) []byte {
 		enc = clone(p.base)
 	case 1:
 		enc = vUF("ec_mul1", 49, p.base, p.f1)
-	default:
+	case 2:
 		// not injective in the individual factors (only their product matters); commutative
 		enc = vUFN("ec_mul2", 49, p.base, p.f1, p.f2)
 		vAssume(vBytesEq(enc, vUFN("ec_mul2", 49, p.base, p.f2, p.f1)))
+	default:
+		enc = vUFN("ec_mul3", 49, p.base, p.f1, p.f2, p.f3)
 	}
 	vAssume(vUFBool("ec_valid", enc))
 	for i := range ptReg {
@@ -137,8 +139,10 @@ func blindPoint(p *mPoint, f []byte) *mPoint {
 		return &mPoint{base: p.base, f1: f, nf: 1}
 	case 1:
 		return &mPoint{base: p.base, f1: p.f1, f2: f, nf: 2}
+	case 2:
+		return &mPoint{base: p.base, f1: p.f1, f2: p.f2, f3: f, nf: 3}
 	}
-	panic("ec model: more than two blinding factors")
+	panic("ec model: more than three blinding factors")
 }
 
 func unblindPoint(p *mPoint, f []byte) *mPoint {
@@ -157,8 +161,10 @@ func blindPointRaw(p *mPoint, f []byte) *mPoint {
 		return &mPoint{base: p.base, f1: f, nf: 1}
 	case 1:
 		return &mPoint{base: p.base, f1: p.f1, f2: f, nf: 2}
+	case 2:
+		return &mPoint{base: p.base, f1: p.f1, f2: p.f2, f3: f, nf: 3}
 	}
-	panic("ec model: more than two blinding factors")
+	panic("ec model: more than three blinding factors")
 }
 
 func EcdsaBlindPublicKeyWithContext(c elliptic.Curve, pk *ecdsa.PublicKey, bk *ecdsa.PrivateKey, ctx []byte) (*ecdsa.PublicKey, error) {
